@@ -1036,7 +1036,7 @@ func ftRead(x *X, i int, op ftOp, v efivar.Efivar, p string, obj *efivarfs.Efiva
 				db, err = efi.Getdbx()
 			}
 			if err == nil && db != nil {
-				typed = fmt.Sprintf("db:%x", db.Bytes())
+				typed = fmt.Sprintf("db:%x|%s", db.Bytes(), libStructure(db))
 			} else if err == nil {
 				err = errors.New("nil database, nil error")
 			}
@@ -1189,7 +1189,7 @@ func ftTypedRead(obj *efivarfs.Efivarfs, api string) (string, error) {
 		if db == nil {
 			return "", errors.New("nil database, nil error")
 		}
-		return fmt.Sprintf("db:%x", db.Bytes()), nil
+		return fmt.Sprintf("db:%x|%s", db.Bytes(), libStructure(db)), nil
 	}
 	switch api[6:] {
 	case "GetPK":
@@ -1229,10 +1229,11 @@ func ftTypedRead(obj *efivarfs.Efivarfs, api string) (string, error) {
 func ftTypedRef(api string, value []byte) (string, bool) {
 	switch api[6:] {
 	case "GetPK", "GetKEK", "Getdb", "Getdbx":
-		if _, err := refESLDecode(value); err != nil {
+		ls, err := refESLDecode(value)
+		if err != nil {
 			return "", true
 		}
-		return fmt.Sprintf("db:%x", value), false
+		return fmt.Sprintf("db:%x|%s", value, refStructure(ls)), false
 	case "GetSetupMode", "GetSecureBoot":
 		if len(value) < 1 {
 			return "", true
